@@ -462,7 +462,7 @@ class _OracleSeq(_Oracle):
         return super().primitive(it, p, e, ins)
 
 
-def bond_body(kind, fast=True, norb=2, bits=(1, 1, 1, 1)):
+def bond_body(kind, fast=True, norb=2, bits=(1, 1, 1, 1), bond=(1, 0)):
     """C10.cpmc.bond.{fast,slow}: the REAL neighbour-bond scan body of the nearest-neighbour CPMC propagators (one bond = four consecutive
     sub-steps up-up, up-dn, dn-up, dn-dn with the discrete field constants hs_constant_nn) maps an invariant state (greens = calc_full_green(walkers),
     overlaps = overlap(walkers)) to an invariant state: after sub-step k the walkers are D^(k)_{x_k} phi_{k-1} (row site_i of the first spin channel
@@ -475,7 +475,7 @@ def bond_body(kind, fast=True, norb=2, bits=(1, 1, 1, 1)):
     out = []
     nel = (1, 1)
     pcls = propagation.propagator_cpmc_nn if fast else propagation.propagator_cpmc_nn_slow
-    bond = (0, 1)
+    bond = tuple(bond)         # first site != bond counter (0): a body that indexes a row by the loop counter instead of the site is visible
     which = "fast" if fast else "slow"
     for site in (0,):
         for bit in (tuple(bits),):
@@ -696,7 +696,7 @@ def replay_bond(o):
         {"mo_coeff": jnp.array(rng.normal(size=(2 * norb, nel[0] + nel[1])))}
     res = {}
     for cls in (propagation.propagator_cpmc_nn, propagation.propagator_cpmc_nn_slow):
-        prop = cls(dt=0.05, n_walkers=nw, neighbors=((0, 1), (1, 2)))
+        prop = cls(dt=0.05, n_walkers=nw, neighbors=((1, 0), (2, 1), (0, 2)))      # first site of a bond != its index in the list
         rng2 = np.random.default_rng(22)
         walkers = [jnp.array(rng2.normal(size=(nw, norb, nel[0]))), jnp.array(rng2.normal(size=(nw, norb, nel[1])))]
         ov = trial.calc_overlap(walkers, wave)
@@ -717,7 +717,7 @@ def replay_bond(o):
     e_sl = float(jnp.max(jnp.abs(s_["overlaps"] - trial.calc_overlap(s_["walkers"], wave))))
     dev = max(e_ov, e_g, e_fs, e_sl)
     o["replayed"] = bool(not np.isfinite(dev) or dev > 1e-8)
-    o["witness"] = dict(o.get("witness") or {}, native=dict(kind=kind, lattice="3-site chain, bonds (0,1),(1,2)", fast_overlaps_vs_scratch=e_ov, fast_greens_vs_scratch=e_g,
+    o["witness"] = dict(o.get("witness") or {}, native=dict(kind=kind, lattice="3 sites, bonds (1,0),(2,1),(0,2)", fast_overlaps_vs_scratch=e_ov, fast_greens_vs_scratch=e_g,
                                                           fast_vs_slow=e_fs, slow_overlaps_vs_scratch=e_sl))
 
 
